@@ -7,6 +7,7 @@ import Hv.Hdd
 import Hv.Concat
 import HvProofs.Concat
 import HvProofs.VmdkDescRT
+import HvProofs.ConcatSparse
 namespace Hv.C10
 open Hv Hv.VmdkDesc Hv.Concat
 
@@ -250,6 +251,95 @@ example : exVmdk.readSectors 1 3 = .ok (slice exA.byte 512 512 ++ slice exB.byte
 /-- … and the tail of the disk, ending exactly at the end of the last extent, by the theorem -/
 example : exVmdk.readSectors 2 4 = .ok (slice (concat (flatParts exExts)) 1024 2048) :=
   (vmdk_flat_extents_read_correct exExts (by decide) 2 4 (by decide)).1
+
+/-! ### `ReadAs` instantiated for sparse extents (C02) and for mixed descriptors -/
+
+/-- **vmdk_mixed_extents_read_correct**: a descriptor's extents after the wiring — FLAT / VMFS files holding their
+    extent, hosted-sparse / VMFS-sparse / SE-sparse extents inside the hypotheses of C02 `sparse_read_correct`
+    (`WF`, uncompressed; any capacity, grain size, grain states; with or without parent), stream-optimised extents inside
+    C02 `compressed_read_correct` (`WFc`), and extents of the kinds the
+    grammar accepts but `VMDK.__init__` does not map (ZERO / VMFSRDM / VMFSRAW, finding D20) — assembled by
+    `VMDK.__init__`: every in-range `read_sectors` (inside one extent, across any number of boundaries between extents
+    of different kinds, up to the very end) returns the concatenation of the **mapped** extents' contents, the size is
+    their sum, and that sum is short of the sectors the descriptor declares by exactly the unwired extents. -/
+theorem vmdk_mixed_extents_read_correct (exts : List Ext) (pc : Nat → UInt8) (h : ∀ e ∈ exts, e.OK pc)
+    (sector count : Nat) (hin : sector + count ≤ total (extParts pc 0 exts)) :
+    (Vmdk.assemble (extCtors exts)).readSectors sector count
+        = .ok (slice (concat (extParts pc 0 exts)) (sector * 512) (count * 512)) ∧
+    (Vmdk.assemble (extCtors exts)).size = total (extParts pc 0 exts) * 512 ∧
+    total (extParts pc 0 exts) + unwiredSectors exts = declared exts := by
+  have hg := ext_good pc exts h
+  have hc := (vmdk_assemble_contiguous _ hg).1
+  have hr : ReadAs (Vmdk.assemble (extCtors exts)).disks.toList (extParts pc 0 exts) := by
+    rw [assemble_disks]; exact ext_readAs pc exts 0 h
+  refine ⟨readSectors_concat _ _ hc hr sector count hin, ?_, total_extParts pc exts 0⟩
+  rw [(vmdk_assemble_contiguous _ hg).2, ← readAs_sectors _ _ hr]; rfl
+
+/-- **vmdk_sparse_extents_read_correct**: `twoGbMaxExtentSparse`-style descriptors — every extent a well-formed
+    sparse extent (C02 `WF`, e.g. by `vmdk_wfb_sound`), extent `i` opened as `SparseDisk(fh_i, parent, Σ_{j<i} capacity_j)`:
+    reads are the concatenation of the extents' guest contents, the size is `Σ capacity_i * 512`. -/
+theorem vmdk_sparse_extents_read_correct (sps : List Vmdk.Sparse) (pc : Nat → UInt8)
+    (h : ∀ sp ∈ sps, Vmdk.WF sp ∧ Vmdk.ParentOK sp pc ∧ 0 < sp.capacity)
+    (sector count : Nat) (hin : sector + count ≤ (sps.map (·.capacity)).sum) :
+    (Vmdk.assemble (sps.map sparseCtor)).readSectors sector count
+        = .ok (slice (concat (sparseParts pc 0 sps)) (sector * 512) (count * 512)) ∧
+    (Vmdk.assemble (sps.map sparseCtor)).size = (sps.map (·.capacity)).sum * 512 := by
+  have hm := vmdk_mixed_extents_read_correct (sps.map Ext.sparse) pc (by
+    intro e he
+    obtain ⟨sp, hsp, rfl⟩ := List.mem_map.mp he
+    exact h sp hsp) sector count (by rw [extParts_sparse, total_sparseParts]; exact hin)
+  rw [extCtors_sparse, extParts_sparse, total_sparseParts] at hm
+  exact ⟨hm.1, hm.2.1⟩
+
+/-- without parents the parts are the extents' own guest contents `sp.guest` (what `vmdk.concatcheck` evaluates) -/
+theorem vmdk_sparse_extents_noparent (sps : List Vmdk.Sparse) (pc : Nat → UInt8) (h : ∀ sp ∈ sps, sp.parent = none) :
+    sparseParts pc 0 sps = sps.map (fun sp => ⟨sp.capacity, sp.guest (fun _ => 0)⟩) :=
+  sparseParts_noparent pc sps 0 h
+
+/-! non-vacuity: a hosted-sparse extent (capacity 3 sectors, grain size 2: grain 0 stored at sector 2, grain 1 absent)
+    and the stream-optimised extent `exC` of C02, after a flat extent and a ZERO extent, before another flat extent;
+    a request across all the boundaries -/
+def exSFile : File := ⟨2048, fun p => if p = 512 then 2 else if p < 1024 then 0 else UInt8.ofNat (p % 251)⟩
+def exS : Vmdk.Sparse :=
+  { fh := exSFile, kind := .hosted, flags := 0, capacity := 3, grainSize := 2, gtSize := 2, gd := #[1],
+    grainTablesOffset := 0, grainsOffset := 0, sectorOffset := 0, parent := none, inflate := fun _ _ => .error .other }
+def exMixed : List Ext := [.flat exA 2, .unwired 8, .sparse exS, .compressed Vmdk.exC Vmdk.exC.contentOf, .flat exC 3]
+
+theorem exS_wf : Vmdk.WF exS := Vmdk.wfbU_sound exS (by decide)
+set_option maxRecDepth 100000 in
+theorem exC_wfc : Vmdk.WFc Vmdk.exC Vmdk.exC.contentOf := Vmdk.wfbC_sound _ (by decide)
+theorem exC_parent : Vmdk.ParentOK Vmdk.exC (fun _ => 0) := by intro p hp; cases hp
+theorem exS_parent : Vmdk.ParentOK exS (fun _ => 0) := by intro p hp; cases hp
+
+theorem exMixed_ok : ∀ e ∈ exMixed, e.OK (fun _ => 0) := by
+  intro e he
+  simp only [exMixed, List.mem_cons, List.not_mem_nil, or_false] at he
+  rcases he with rfl | rfl | rfl | rfl | rfl
+  · exact ⟨by decide, by decide⟩
+  · trivial
+  · exact ⟨exS_wf, exS_parent, by decide⟩
+  · exact ⟨exC_wfc, exC_parent, by decide⟩
+  · exact ⟨by decide, by decide⟩
+
+example : total (extParts (fun _ => 0) 0 exMixed) = 10 ∧ declared exMixed = 18 := by decide
+
+/-- sectors 1 … 8: the tail of the flat extent, the whole sparse extent (stored grain, then the absent one), the whole
+    stream-optimised extent, and the head of the last flat extent -/
+example : (Vmdk.assemble (extCtors exMixed)).readSectors 1 8
+    = .ok (slice (concat (extParts (fun _ => 0) 0 exMixed)) 512 4096) :=
+  (vmdk_mixed_extents_read_correct exMixed _ exMixed_ok 1 8 (by decide)).1
+
+/-- the sparse extent's bytes inside the concatenation: stored grain from file offset 1024, absent grain zeros -/
+example : concat (extParts (fun _ => 0) 0 exMixed) 1024 = exSFile.byte 1024 ∧
+    concat (extParts (fun _ => 0) 0 exMixed) (1024 + 1023) = exSFile.byte 2047 ∧
+    concat (extParts (fun _ => 0) 0 exMixed) (1024 + 1024) = 0 := by decide
+
+example : (Vmdk.assemble ([exS, exS].map sparseCtor)).size = 3072 :=
+  (vmdk_sparse_extents_read_correct [exS, exS] (fun _ => 0)
+    (by intro sp hsp
+        simp only [List.mem_cons, List.not_mem_nil, or_false, or_self] at hsp
+        subst hsp
+        exact ⟨exS_wf, exS_parent, by decide⟩) 0 0 (by decide)).2
 
 /-! ### Parallels `StorageStream`
 
